@@ -193,8 +193,58 @@ def _is_mask(m):
     return isinstance(m, int) and m > 0 and (m & (m + 1)) == 0
 
 
+def bitparts(x):
+    """decompose a non-negative term into disjoint bit fields: [(lo, width, atom or int)] or None"""
+    if isinstance(x, bool):
+        return None
+    if isinstance(x, int):
+        return [(0, max(x.bit_length(), 1), x)] if x >= 0 else None
+    w = width_of(x)
+    if not isinstance(x, Lin):
+        return [(0, w, x)] if w is not None else None
+    parts = []
+    if x.const < 0:
+        return None
+    if x.const:
+        parts.append((0, x.const.bit_length(), x.const))
+    for a, c in x.terms.items():
+        wa = width_of(a)
+        if wa is None or not isinstance(c, int) or c <= 0 or (c & (c - 1)) != 0:
+            return None
+        parts.append((c.bit_length() - 1, wa, a))
+    # disjointness (constants: their set bits must not overlap any field)
+    for i, (lo, w_, v) in enumerate(parts):
+        for j, (lo2, w2, v2) in enumerate(parts):
+            if i < j:
+                if isinstance(v, int) and not isinstance(v2, int):
+                    if (v >> lo2) & ((1 << w2) - 1):
+                        return None
+                elif isinstance(v2, int) and not isinstance(v, int):
+                    if (v2 >> lo) & ((1 << w_) - 1):
+                        return None
+                elif not isinstance(v, int) and not isinstance(v2, int):
+                    if lo < lo2 + w2 and lo2 < lo + w_:
+                        return None
+    return parts
+
+
 def bits(x, shift, width):
     """Normal form of ((x >> shift) & (2**width - 1)); nested slices compose."""
+    if isinstance(x, Lin):
+        parts = bitparts(x)
+        if parts is not None:
+            total = 0
+            hi = shift + width
+            for lo, w_, v in parts:
+                if isinstance(v, int):
+                    total = add(total, ((v >> shift) & ((1 << width) - 1)) if shift < lo + w_ + 64 else 0)
+                    continue
+                a, b = max(lo, shift), min(lo + w_, hi)
+                if a >= b:
+                    continue
+                piece = v if (a == lo and b == lo + w_) else bits(v, a - lo, b - a)
+                total = add(total, mul(piece, 1 << (a - shift)))
+            return total
     if isinstance(x, Op) and x.op == "bits":
         x0, s0, w0 = x.args
         if shift >= w0:
@@ -206,11 +256,20 @@ def bits(x, shift, width):
         return x
     if isinstance(x, Op) and x.op == "shr" and isinstance(x.args[1], int):
         return Op("bits", x.args[0], x.args[1] + shift, width)
+    wx = width_of(x)
+    if wx is not None:
+        if shift >= wx:
+            return 0
+        if shift == 0 and width >= wx:
+            return x
+        width = min(width, wx - shift)
     return Op("bits", x, shift, width)
 
 
 def width_of(x):
     """Upper bound on the bit width of a non-negative term, or None."""
+    if isinstance(x, Sym) and x.info and isinstance(x.info, dict) and "width" in x.info:
+        return x.info["width"]
     if isinstance(x, Op) and x.op == "bits":
         return x.args[2]
     if isinstance(x, Op) and x.op == "byte":
@@ -284,6 +343,8 @@ def binop(op, a, b):
         # x | (y << k) where x < 2**k  ==  x + y*2**k   (disjoint bit ranges)
         for x, y in ((a, b), (b, a)):
             wx = width_of(x) if not isinstance(x, Lin) else lin_width(x)
+            if wx is not None and isinstance(y, int) and not isinstance(y, bool) and y >= 0 and y % (1 << wx) == 0:
+                return add(x, y)
             ly = lin(y)
             if wx is not None and ly is not None and ly.terms and ly.const % (1 << wx) == 0 and \
                     all(isinstance(c, int) and c % (1 << wx) == 0 for c in ly.terms.values()) and \
@@ -293,6 +354,10 @@ def binop(op, a, b):
     if t is ast.BitAnd:
         if isinstance(a, int) and not isinstance(b, int):
             a, b = b, a
+        if isinstance(b, int) and isinstance(a, Lin) and b > 0 and bitparts(a) is not None:
+            s_ = (b & -b).bit_length() - 1
+            if _is_mask(b >> s_):
+                return mul(bits(a, s_, (b >> s_).bit_length()), 1 << s_)
         if isinstance(b, int):
             if b == 0:
                 return 0
@@ -308,6 +373,11 @@ def binop(op, a, b):
                 return mul(bits(a, s, (b >> s).bit_length()), 1 << s)
         return Op("and", a, b)
     if t is ast.RShift:
+        if isinstance(b, int) and isinstance(a, Lin) and len(a.terms) > 1 or (isinstance(b, int) and isinstance(a, Lin) and a.const):
+            parts = bitparts(a)
+            if parts is not None:
+                top = max(lo + w_ for lo, w_, v in parts)
+                return bits(a, b, max(top - b, 1)) if top > b else 0
         if isinstance(b, int):
             if b == 0:
                 return a
@@ -479,6 +549,8 @@ class Spec(object):
         self.frames = []
         self.gen_elem_hook = None
         self.byte_hook = None
+        self.eager_generators = False
+        self.summarise_constant_loops = False
         self.tainted = {}  # id(container) -> Sym standing for "this container after symbolic mutation"
 
     # ------------------------------------------------------------------ helpers
@@ -543,7 +615,8 @@ class Spec(object):
         return tuple(out)
 
     def ev_List(self, e, env, g):
-        return list(self.ev_Tuple(e, env, g)) if not isinstance(self.ev_Tuple(e, env, g), Op) else self.ev_Tuple(e, env, g)
+        r = self.ev_Tuple(e, env, g)
+        return list(r) if not isinstance(r, Op) else r
 
     def ev_Set(self, e, env, g):
         vs = [self.ev(x, env, g) for x in e.elts]
@@ -1127,6 +1200,13 @@ class Spec(object):
         if symbolic_args or any(isinstance(a, Opaque) for a in args):
             # method of a concrete container with symbolic argument
             self_obj = getattr(f, "__self__", None)
+            if not self.guards and isinstance(self_obj, list) and name in ("append", "extend", "insert") and id(self_obj) not in self.tainted \
+                    and not any(isinstance(a, (Top, Opaque)) for a in args):
+                # straight-line code: a list may hold symbolic elements
+                try:
+                    return f(*args)
+                except Exception:
+                    pass
             if self_obj is not None and isinstance(self_obj, (list, dict, set)) and name in (
                     "append", "extend", "add", "update", "insert", "remove", "pop", "clear", "setdefault"):
                 self.effect("mutate", name, show(self_obj)[:40], tuple(args), node=node)
@@ -1166,7 +1246,8 @@ class Spec(object):
             except Exception as ex:
                 self.effect("raises", name, type(ex).__name__, node=node)
                 raise SpecRaise(type(ex).__name__, node)
-            if type(r).__name__ in ("generator", "map", "filter", "zip", "enumerate", "reversed") :
+            if type(r).__name__ in ("generator", "map", "filter", "zip", "enumerate", "reversed") and \
+                    not any(hasattr(a, "__next__") for a in args):
                 try:
                     r = list(r)
                 except Exception:
@@ -1207,9 +1288,44 @@ class Spec(object):
         fa = f.node
         is_gen = (not isinstance(fa, ast.Lambda)) and any(isinstance(n, (ast.Yield, ast.YieldFrom)) for n in ast.walk(fa))
         if is_gen:
+            if self.eager_generators and self.depth < self.inline_depth:
+                r = self.try_eager_generator(f, args, kw)
+                if r is not None:
+                    return r
             self.effect("gen", q, tuple(args), tuple(sorted(kw.items())), node=node)
             return Sym("gen:%s#%d" % (f.name, len(self.effects)), "gen", {"func": f, "args": args, "kw": kw})
         return self.inline(f, args, kw, node)
+
+    def try_eager_generator(self, f, args, kw):
+        """run a generator body now and return the list of yielded values, if every yield is unconditional
+        (no data-dependent control flow decides what is yielded); otherwise undo and return None"""
+        my, me_, ms = len(self.yields), len(self.effects), self.nsym
+        g0 = tuple(repr(g) for g in self.guards)
+        env = self.bind(f, args, kw)
+        self.depth += 1
+        self.fnstack.append(f.qualname)
+        self.callstack.append(f.qualname)
+        self.frames.append((f, env))
+        try:
+            out = self.block(f.node.body, env, f.module.ns)
+        except FoldError:
+            out = None
+        finally:
+            self.depth -= 1
+            self.fnstack.pop()
+            self.callstack.pop()
+            self.frames.pop()
+        ys = self.yields[my:]
+        ok = out is not None and isinstance(out, (Fall, Ret)) and all(tuple(repr(g) for g in y[0]) == g0 for y in ys) and \
+            not any(e.kind == "loop" for e in self.effects[me_:])
+        if not ok:
+            del self.yields[my:]
+            del self.effects[me_:]
+            return None
+        vals = [y[1] for y in ys]
+        del self.yields[my:]
+        self.effects[me_:] = [e for e in self.effects[me_:] if e.kind != "yield"]
+        return vals
 
     def bind(self, f, args, kw):
         fa = f.node
@@ -1571,6 +1687,33 @@ class Spec(object):
         concrete = not is_sym(it) and hasattr(it, "__iter__") and not isinstance(it, (Instance, FuncRef, ClassRef, ModuleNS))
         if concrete and isinstance(it, (dict, set, frozenset)) and len(it) > 64:
             concrete = False
+        if concrete and hasattr(it, "__next__"):
+            # a stateful iterator (iter(...), enumerate(iterator)): consume lazily, one element per iteration
+            n_it = 0
+            while True:
+                try:
+                    x = next(it)
+                except StopIteration:
+                    break
+                except Exception:
+                    return self.summarise_loop(s, env, g, it)
+                n_it += 1
+                if n_it > 300:
+                    return self.summarise_loop(s, env, g, it)
+                self.assign(s.target, x, env, g)
+                out = self.block(s.body, env, g)
+                if isinstance(out, (Fall, Cont)):
+                    env = out.env
+                elif isinstance(out, Brk):
+                    return Fall(out.env)
+                elif isinstance(out, (Ret, Raise)):
+                    return out
+                else:
+                    # data-dependent exit: continue the remaining iterations on the falling side only is unsound; summarise
+                    return self.continue_lazy(s, out, it, g)
+            if s.orelse:
+                return self.block(s.orelse, env, g)
+            return Fall(env)
         if concrete:
             try:
                 items = list(it)
@@ -1595,6 +1738,19 @@ class Spec(object):
                     return self.block(s.orelse, env, g)
                 return Fall(env)
         return self.summarise_loop(s, env, g, it)
+
+    def continue_lazy(self, s, out, it, g):
+        """an iteration over a stateful iterator ended in a data-dependent split: every leaf that would continue the loop is
+        joined into one summary of the remaining iterations (sound but imprecise); leaves that left the loop are kept"""
+        def fix(o):
+            if isinstance(o, Split):
+                return Split(o.cond, fix(o.a), fix(o.b))
+            if isinstance(o, (Fall, Cont)):
+                return self.summarise_loop(s, o.env, g, it)
+            if isinstance(o, Brk):
+                return Fall(o.env)
+            return o
+        return fix(out)
 
     def summarise_loop(self, s, env, g, it=None):
         tag = "loop%d" % s.lineno
@@ -1650,6 +1806,9 @@ class Spec(object):
     def stmt_while(self, s, env, g):
         # concrete loops are executed (bounded); symbolic ones summarised
         n = 0
+        if isinstance(s.test, ast.Constant) and s.test.value and self.summarise_constant_loops:
+            # `while True:` leaves only through data-dependent break/return/exception: summarise one iteration
+            return self.summarise_loop(s, env, g)
         while True:
             c = self.ev(s.test, env, g)
             if is_sym(c):
